@@ -250,3 +250,202 @@ B("c01-benign-if-else-chain", "C01", "stats.go",
 		} else if h.htype == durationHistogramType {
 			h.samples[i].cachedBucket.ReportSamples(samples)
 		}""")
+
+# ---------------------------------------------------------------- C03 histogram buckets
+M("c03-gt-for-geq", "C03", "stats.go",
+  "return h.buckets[i].valueUpperBound >= value", "return h.buckets[i].valueUpperBound > value", expect="O1 search-predicate")
+M("c03-wrong-kind-field", "C03", "stats.go",
+  "return h.buckets[i].durationUpperBound >= value", "return time.Duration(h.buckets[i].valueUpperBound) >= value", expect="O1 search-predicate")
+M("c03-guard-dropped", "C03", "stats.go",
+  """	if h.htype != durationHistogramType {
+		return
+	}
+""", "", expect="O3 type-guard")
+M("c03-guard-swapped", "C03", "stats.go",
+  """	if h.htype != valueHistogramType {
+		return
+	}
+
+	// Find""", """	if h.htype != durationHistogramType {
+		return
+	}
+
+	// Find""", expect="O3 type-guard")
+M("c03-revert-clamp", "C03", "stats.go",
+  """	if idx >= len(h.samples) {
+		// n.b. +Inf and NaN compare false against every bound, including the
+		//      terminal math.MaxFloat64 bucket: count them in the last bucket.
+		idx = len(h.samples) - 1
+	}
+""", "", expect="O4 index-guard")
+M("c03-idx-plus-one", "C03", "stats.go",
+  """		return h.buckets[i].durationUpperBound >= value
+	})
+	h.samples[idx].counter.Inc(1)""", """		return h.buckets[i].durationUpperBound >= value
+	})
+	h.samples[idx+1].counter.Inc(1)""", expect="O4 index-guard")
+M("c03-inc-two", "C03", "stats.go",
+  """		return h.buckets[i].durationUpperBound >= value
+	})
+	h.samples[idx].counter.Inc(1)""", """		return h.buckets[i].durationUpperBound >= value
+	})
+	h.samples[idx].counter.Inc(2)""", expect="O2 one-increment")
+M("c03-lower-at-i", "C03", "stats.go",
+  "	return buckets[i-1].valueUpperBound", "	return buckets[i].valueUpperBound", expect="O5 lower-bound")
+M("c03-open-end-zero", "C03", "stats.go",
+  "		return -math.MaxFloat64\n	}\n	return buckets[i-1].valueUpperBound", "		return 0\n	}\n	return buckets[i-1].valueUpperBound", expect="O5 lower-bound")
+M("c03-no-sort", "C03", "histogram.go",
+  "		values = copyAndSortValues(buckets.AsValues())", "		values = buckets.AsValues()", expect="O5 sorted-copy")
+M("c03-sort-dropped-in-copy", "C03", "histogram.go",
+  "	sort.Sort(DurationBuckets(durationsCopy))\n", "	_ = sort.Sort\n", expect="O5 sorted-copy")
+M("c03-less-reversed", "C03", "histogram.go",
+  """func (v ValueBuckets) Less(i, j int) bool {
+	return v[i] < v[j]""", """func (v ValueBuckets) Less(i, j int) bool {
+	return v[i] > v[j]""", expect="O5 sorted-copy")
+M("c03-single-bucket-upper", "C03", "histogram.go",
+  "		upperBoundDuration: time.Duration(math.MaxInt64),", "		upperBoundDuration: time.Duration(math.MaxInt32),", expect="O5 open-ends")
+M("c03-report-lower-dur-for-value", "C03", "stats.go",
+  """				valueLowerBound(h.buckets, i),
+				h.buckets[i].valueUpperBound,
+				samples,""", """				valueLowerBound(h.buckets, i+1),
+				h.buckets[i].valueUpperBound,
+				samples,""", expect="O5 bound-pairs")
+M("c03-storage-swapped", "C03", "stats.go",
+  "			valueUpperBound:    pair.UpperBoundValue(),", "			valueUpperBound:    pair.LowerBoundValue(),", expect="O5 storage-fields")
+M("c03-samples-len", "C03", "stats.go",
+  "		samples:       make([]sampleCounter, len(storage.hbuckets)),", "		samples:       make([]sampleCounter, storage.buckets.Len()+1),", expect="O4 samples-len")
+B("c03-benign-flipped-cmp", "C03", "stats.go",
+  "return h.buckets[i].valueUpperBound >= value", "return value <= h.buckets[i].valueUpperBound")
+B("c03-benign-guard-eq", "C03", "stats.go",
+  """	if h.htype != durationHistogramType {
+		return
+	}
+
+	// Find the highest inclusive of the bucket upper bound
+	// and emit directly to it. Since we use BucketPairs to derive
+	// buckets there will always be an inclusive bucket as
+	// we always have a math.MaxInt64 bucket.
+	idx := sort.Search(len(h.buckets), func(i int) bool {
+		return h.buckets[i].durationUpperBound >= value
+	})
+	h.samples[idx].counter.Inc(1)
+""", """	if h.htype == durationHistogramType {
+		idx := sort.Search(len(h.buckets), func(i int) bool {
+			return h.buckets[i].durationUpperBound >= value
+		})
+		h.samples[idx].counter.Inc(1)
+	}
+""")
+B("c03-benign-guard-lt-return", "C03", "stats.go",
+  """	if idx >= len(h.samples) {
+		// n.b. +Inf and NaN compare false against every bound, including the
+		//      terminal math.MaxFloat64 bucket: count them in the last bucket.
+		idx = len(h.samples) - 1
+	}
+""", """	if idx == len(h.buckets) {
+		idx = len(h.buckets) - 1
+	}
+""")
+
+# ---------------------------------------------------------------- C20 bucket constructors / identity
+M("c20-n-lt-0", "C20", "histogram.go",
+  """func LinearValueBuckets(start, width float64, n int) (ValueBuckets, error) {
+	if n <= 0 {""", """func LinearValueBuckets(start, width float64, n int) (ValueBuckets, error) {
+	if n < 0 {""", expect="O1 guards")
+M("c20-factor-lt-1", "C20", "histogram.go",
+  """	if factor <= 1 {
+		return nil, errBucketsFactorNeedsGreaterThanOne
+	}
+	buckets := make([]time.Duration, n)""", """	if factor < 1 {
+		return nil, errBucketsFactorNeedsGreaterThanOne
+	}
+	buckets := make([]time.Duration, n)""", expect="O1 guards")
+M("c20-start-guard-dropped", "C20", "histogram.go",
+  """	if start <= 0 {
+		return nil, errBucketsStartNeedsGreaterThanZero
+	}
+	if factor <= 1 {
+		return nil, errBucketsFactorNeedsGreaterThanOne
+	}
+	buckets := make([]float64, n)""", """	if factor <= 1 {
+		return nil, errBucketsFactorNeedsGreaterThanOne
+	}
+	buckets := make([]float64, n)""", expect="O1 guards")
+M("c20-make-n-plus-1", "C20", "histogram.go",
+  """	buckets := make([]time.Duration, n)
+	for i := range buckets {
+		buckets[i] = start + (time.Duration(i) * width)""", """	buckets := make([]time.Duration, n+1)
+	for i := range buckets {
+		buckets[i] = start + (time.Duration(i) * width)""", expect="O1 guards")
+M("c20-must-swallow", "C20", "histogram.go",
+  """	buckets, err := LinearDurationBuckets(start, width, n)
+	if err != nil {
+		panic(err)
+	}
+	return buckets""", """	buckets, _ := LinearDurationBuckets(start, width, n)
+	return buckets""", expect="O2 must-shape")
+M("c20-must-wrong-sibling", "C20", "histogram.go",
+  """func MustMakeExponentialDurationBuckets(start time.Duration, factor float64, n int) DurationBuckets {
+	buckets, err := ExponentialDurationBuckets(start, factor, n)""", """func MustMakeExponentialDurationBuckets(start time.Duration, factor float64, n int) DurationBuckets {
+	buckets, err := LinearDurationBuckets(start, time.Duration(factor), n)""", expect="O2 must-shape")
+M("c20-sort-in-place", "C20", "histogram.go",
+  """	valuesCopy := make([]float64, len(values))
+	copy(valuesCopy, values)
+	sort.Sort(ValueBuckets(valuesCopy))
+	return valuesCopy""", """	sort.Sort(ValueBuckets(values))
+	return values""", expect="O3 caller-slice")
+M("c20-sort-float64s-param", "C20", "histogram.go",
+  """	valuesCopy := make([]float64, len(values))
+	copy(valuesCopy, values)
+	sort.Sort(ValueBuckets(valuesCopy))
+	return valuesCopy""", """	sort.Float64s(values)
+	return values""", expect="O3 caller-slice")
+M("c20-no-recheck", "C20", "stats.go",
+  """		c.mtx.RUnlock()
+		if !bucketsEqual(buckets, storage.buckets) {
+			storage = newBucketStorage(htype, buckets)
+		}""", """		c.mtx.RUnlock()""", expect="O4 cache-hit-equality")
+M("c20-recheck-self", "C20", "stats.go",
+  "		if !bucketsEqual(buckets, storage.buckets) {", "		if !bucketsEqual(buckets, buckets) {", expect="O4 cache-hit-equality")
+M("c20-recheck-inverted", "C20", "stats.go",
+  "		if !bucketsEqual(buckets, storage.buckets) {", "		if bucketsEqual(buckets, storage.buckets) {", expect="O4 cache-hit-equality")
+M("c20-equal-no-len", "C20", "histogram.go",
+  """		if len(b1) != len(b2) {
+			return false
+		}
+		for i := 0; i < len(b1); i++ {
+			if b1[i] != b2[i] {
+				return false
+			}
+		}
+	case ValueBuckets:""", """		for i := 0; i < len(b1) && i < len(b2); i++ {
+			if b1[i] != b2[i] {
+				return false
+			}
+		}
+	case ValueBuckets:""", expect="O4 buckets-equal")
+M("c20-equal-first-only", "C20", "histogram.go",
+  """		for i := 0; i < len(b1); i++ {
+			if b1[i] != b2[i] {
+				return false
+			}
+		}
+	}
+
+	return true""", """		if len(b1) > 0 && b1[0] != b2[0] {
+			return false
+		}
+	}
+
+	return true""", expect="O4 buckets-equal")
+B("c20-benign-guard-lt-1", "C20", "histogram.go",
+  """func LinearValueBuckets(start, width float64, n int) (ValueBuckets, error) {
+	if n <= 0 {""", """func LinearValueBuckets(start, width float64, n int) (ValueBuckets, error) {
+	if n < 1 {""")
+B("c20-benign-recheck-positive", "C20", "stats.go",
+  """		if !bucketsEqual(buckets, storage.buckets) {
+			storage = newBucketStorage(htype, buckets)
+		}""", """		if bucketsEqual(storage.buckets, buckets) {
+			return storage
+		}
+		return newBucketStorage(htype, buckets)""")
